@@ -869,6 +869,7 @@ func init() {
 						}
 					}
 					pre := cx.st.clone()
+					fr.workerRequires(cx, clo, con, nf, pre, cx.args[2], "workqueue.ParallelizeUntil")
 					env := nf.specEnvFor(pre)
 					env.con = con
 					env.pkg = con.Pkg
@@ -906,6 +907,33 @@ func init() {
 		}
 		return fr.havocCall(cx, "closure without frame contract")
 	}
+}
+
+// workerRequires: the preconditions of a contracted worker closure (func(i int)) are obligations of the caller
+// for every index below pieces, in the state in which the helper is called.
+func (fr *Frame) workerRequires(cx *callCtx, clo *Closure, con *Contract, nf *Frame, pre *State, pieces Term, label string) {
+	e := fr.eng
+	vc := e.vc
+	if len(con.Requires) == 0 || len(clo.fn.Params) != 1 {
+		return
+	}
+	q := sym(fmt.Sprintf("q$piece$%d", e.qctr()))
+	nf.vals[clo.fn.Params[0]] = q
+	env := nf.specEnvFor(pre)
+	env.con = con
+	env.pkg = con.Pkg
+	env.old = pre
+	ord := e.callOrd(fr, label)
+	for k, rc := range con.Requires {
+		vc.noname++
+		env.quant++
+		g := env.evalBool(rc.Expr)
+		env.quant--
+		vc.noname--
+		ob := fmt.Sprintf("(forall ((%s Int)) (=> (and (<= 0 %s) (< %s %s)) %s))", q, q, q, pieces, g)
+		vc.oblige(fr.oblName(fmt.Sprintf("call.%s.%d.fn-pre.%s", label, ord, clauseID(rc, k))), "call-pre", cx.st.pc, ob, "worker precondition for every index: "+rc.Src)
+	}
+	delete(nf.vals, clo.fn.Params[0])
 }
 
 // havocCaptured: the variables a closure captures by reference may have been assigned by its executions.
@@ -1138,6 +1166,7 @@ func init() {
 				}
 			}
 			pre := cx.st.clone()
+			fr.workerRequires(cx, clo, con, nf, pre, cx.args[1], "parallelizeUntil")
 			env := nf.specEnvFor(pre)
 			env.con = con
 			env.pkg = con.Pkg
